@@ -491,16 +491,20 @@ def merge_dedup_rule(ctx):
     repo = ctx.repo
     mesh_ci = repo.cls(MESH)
     f = mesh_ci.methods["Merge"]
-    r = ctx.rule("R20.10", "Mesh.Merge: nodes coincide <=> same merged number (a point shared by three meshes included), merged coordinates follow the mapping, one merged node per distinct point", min_instances=1)
-    r.instance(fn=f.qualname)
-    P = lambda x, y: (Q(x), Q(y), Q(0))
-    meshes_pts = [[P(0, 0), P(1, 0), P(0, 1)], [P(0, 0), P(0, 1), P(-1, 0)], [P(0, 0), P(-1, 0), P(0, -1)]]
-    created = {}
+    r = ctx.rule("R20.10", "Mesh.Merge: nodes coincide <=> same merged number (a point shared by three meshes included; a sheet and its copy one unit above it are not glued), merged coordinates follow the mapping, one merged node per distinct point", min_instances=2)
+    P = lambda x, y, z=0: (Q(x), Q(y), Q(z))
+    scenarios = {
+        "three triangles sharing the corner (0, 0) (a point present in all three meshes) and pairwise an edge point": [[P(0, 0), P(1, 0), P(0, 1)], [P(0, 0), P(0, 1), P(-1, 0)], [P(0, 0), P(-1, 0), P(0, -1)]],
+        # the first mesh lies in the plane z = 0 (its embedding dimension is 2); the second is the same triangle one unit above
+        "a triangle in the plane z = 0, the same triangle at z = 1, and a neighbour of the first in the plane": [[P(0, 0), P(1, 0), P(0, 1)], [P(0, 0, 1), P(1, 0, 1), P(0, 1, 1)], [P(0, 0), P(0, 1), P(-1, 0)]],
+    }
 
     def mk_mesh(pts):
         c = XArray((len(pts), 3), [v for p in pts for v in p])
         g = SimpleNamespace(connect=XArray((1, 3), [0, 1, 2], "i"), Ncoords=len(pts))
-        return SimpleNamespace(coord=c, dict_groupElem={"TRI3": g}, groupElem=g, Nn=len(pts))
+        # (inDim as the Mesh property computes it: the highest coordinate that is not identically zero)
+        inDim = 3 if any(p[2] != 0 for p in pts) else 2 if any(p[1] != 0 for p in pts) else 1
+        return SimpleNamespace(coord=c, coordGlob=c, dict_groupElem={"TRI3": g}, groupElem=g, Nn=len(pts), dim=2, inDim=inDim)
 
     class Tree:
         _xeval_open = True
@@ -509,8 +513,8 @@ def merge_dedup_rule(ctx):
             self.pts = XArray.from_nested(pts)
 
         def query_pairs(self, tol, output_type=None):
-            n = self.pts.shape[0]
-            row = lambda i: tuple(self.pts[i, k] for k in range(3))
+            n, d = self.pts.shape
+            row = lambda i: tuple(self.pts[i, k] for k in range(d))
             pairs = [(i, j) for i in range(n) for j in range(i + 1, n) if row(i) == row(j)]
             return XArray((len(pairs), 2), [v for p in pairs for v in p], "i")
 
@@ -530,6 +534,8 @@ def merge_dedup_rule(ctx):
         roots = sorted({find(i) for i in range(n)})
         return len(roots), XArray((n,), [roots.index(find(i)) for i in range(n)], "i")
 
+    created = {}
+
     def hook(fn, args, kwargs):
         if isinstance(fn, Opaque):
             tail = fn.tag.split(".")[-1]
@@ -548,39 +554,42 @@ def merge_dedup_rule(ctx):
             return SimpleNamespace(merged=True)
         return NotImplemented
 
-    I = Interp(repo, max_steps=20_000_000)
-    I.call_hook = hook
-    ms = [mk_mesh(p) for p in meshes_pts]
-    try:
-        # (the removal of duplicated elements is another step of Merge, not followed here)
-        out = I.call_function(f, [ms], {"return_mapping": True, "constructUniqueElements": False})
-    except XRaise as e:
-        r.fail(f.qualname, "merge-dedup", f.file, f.lineno, "Mesh.Merge", f"three triangles around a common corner: raises {e}")
-        return
-    mapping = [[int(x) for x in XArray.from_nested(m).data] for m in out[1]]
-    conn, newc = created.get("TRI3", (None, None))
-    bad = None
-    flat = [(i, j) for i in range(3) for j in range(3)]
-    for a in range(len(flat)):
-        for b in range(a + 1, len(flat)):
-            (i, j), (k, l) = flat[a], flat[b]
-            same_pt = meshes_pts[i][j] == meshes_pts[k][l]
-            same_nb = mapping[i][j] == mapping[k][l]
-            if bad is None and same_pt != same_nb:
-                bad = f"node {j} of mesh {i} and node {l} of mesh {k} {'coincide' if same_pt else 'are distinct points'} but get merged numbers {mapping[i][j]} and {mapping[k][l]}"
-    distinct = len({p for m in meshes_pts for p in m})
-    if bad is None and newc is not None:
-        if newc.shape[0] != distinct:
-            bad = f"the merged mesh has {newc.shape[0]} nodes for {distinct} distinct points"
+    for label, meshes_pts in scenarios.items():
+        r.instance(fn=f.qualname)
+        created.clear()
+        I = Interp(repo, max_steps=20_000_000)
+        I.call_hook = hook
+        ms = [mk_mesh(p) for p in meshes_pts]
+        try:
+            # (the removal of duplicated elements is another step of Merge, not followed here)
+            out = I.call_function(f, [ms], {"return_mapping": True, "constructUniqueElements": False})
+        except XRaise as e:
+            r.fail(f.qualname, f"merge-dedup:{label[:24]}", f.file, f.lineno, "Mesh.Merge", f"{label}: raises {e}")
+            continue
+        mapping = [[int(x) for x in XArray.from_nested(m).data] for m in out[1]]
+        conn, newc = created.get("TRI3", (None, None))
+        bad = None
+        flat = [(i, j) for i in range(3) for j in range(3)]
+        for a in range(len(flat)):
+            for b in range(a + 1, len(flat)):
+                (i, j), (k, l) = flat[a], flat[b]
+                same_pt = meshes_pts[i][j] == meshes_pts[k][l]
+                same_nb = mapping[i][j] == mapping[k][l]
+                if bad is None and same_pt != same_nb:
+                    bad = f"node {j} of mesh {i} and node {l} of mesh {k} {'coincide' if same_pt else 'are distinct points'} but get merged numbers {mapping[i][j]} and {mapping[k][l]}"
+        distinct = len({p for m in meshes_pts for p in m})
+        if bad is None and newc is not None:
+            if newc.shape[0] != distinct:
+                bad = f"the merged mesh has {newc.shape[0]} nodes for {distinct} distinct points"
+            else:
+                for i in range(3):
+                    for j in range(3):
+                        if bad is None and tuple(newc[mapping[i][j], k] for k in range(3)) != meshes_pts[i][j]:
+                            bad = f"merged coordinates of mapping[{i}][{j}] are not those of the node"
+        if bad:
+            r.fail(f.qualname, "merge-dedup" if label.startswith("three") else f"merge-dedup:{label[:24]}", f.file, f.lineno, "Mesh.Merge", f"{label}: {bad}: the merged numbering is not 'one node per distinct point' (pairs not closed transitively, or coincidence decided on fewer than the three coordinates); merging the parts of a partition does not give the global mesh back")
         else:
-            for i in range(3):
-                for j in range(3):
-                    if bad is None and tuple(newc[mapping[i][j], k] for k in range(3)) != meshes_pts[i][j]:
-                        bad = f"merged coordinates of mapping[{i}][{j}] are not those of the node"
-    if bad:
-        r.fail(f.qualname, "merge-dedup", f.file, f.lineno, "Mesh.Merge", f"three triangles sharing the corner (0, 0) (a point present in all three meshes) and pairwise an edge point: {bad}: a node shared by three or more meshes is split into several merged nodes (the pair relation was not closed transitively); merging the parts of a partition does not give the global mesh back")
-    else:
-        r.ok("three meshes around a shared corner: one merged node per distinct point, mapping consistent")
+            r.ok(f"{label}: one merged node per distinct point, mapping consistent")
 
 
 def merge_single_rule(ctx):
